@@ -95,6 +95,8 @@ def _worker_init(modname, quiet, run_root=None):
     import warnings
     warnings.filterwarnings("ignore")
     _WORK["mod"] = importlib.import_module(modname)
+    from . import common as _common
+    _common.PATHFORMS_ENABLED = bool(getattr(_WORK["mod"], "PATHFORMS", True))
     if quiet:
         devnull = os.open(os.devnull, os.O_WRONLY)
         os.dup2(devnull, 1)
@@ -170,12 +172,49 @@ def plant_decoys(d):
                 f.write(junk)
 
 
+def twin_of(case):
+    """the same case with every `seed` it contains moved on: the same meshes, layouts, names and PATHS, other values
+    (another time step of the same run)"""
+    import copy
+    found = [False]
+
+    def walk(x):
+        if isinstance(x, dict):
+            for k, v in x.items():
+                if k == "seed" and isinstance(v, int) and not isinstance(v, bool):
+                    x[k] = v + 1000
+                    found[0] = True
+                else:
+                    walk(v)
+        elif isinstance(x, list):
+            for v in x:
+                walk(v)
+    t = copy.deepcopy(case)
+    walk(t)
+    return t if found[0] else None
+
+
 def _run_chunk(chunk):
     mod = _WORK["mod"]
     out = []
     _cov_start()
     for ci, case in chunk:
         d = _WORK["dir"]
+        # every fourth case is preceded, in the same process and at the same paths, by its twin (another time step): whatever
+        # the package keeps from it (open handles, tables or results remembered under a path) must not reach the case itself.
+        # The twin's own verdict is not used.
+        if ci % 4 == 1 and getattr(mod, "TWIN_PRERUN", True) and not os.environ.get("KV_NO_TWIN"):
+            tw = twin_of(case) if isinstance(case, dict) else None
+            if tw is not None:
+                clean_dir(d)
+                plant_decoys(d)
+                os.chdir(d)
+                try:
+                    signal.alarm(getattr(mod, "CASE_TIMEOUT", 300))
+                    mod.run_case(tw, d)
+                    signal.alarm(0)
+                except BaseException:
+                    signal.alarm(0)
         clean_dir(d)
         plant_decoys(d)
         os.chdir(d)
@@ -184,6 +223,9 @@ def _run_chunk(chunk):
             signal.alarm(getattr(mod, "CASE_TIMEOUT", 300))
             res = mod.run_case(case, d)
             signal.alarm(0)
+            if ci % 4 == 1 and getattr(mod, "TWIN_PRERUN", True) and not os.environ.get("KV_NO_TWIN"):
+                for fl_ in res.get("fails", []):
+                    fl_["after_twin"] = True          # (the replay file says so, and --replay runs the twin first)
         except BaseException as e:  # harness error: never silently a pass
             signal.alarm(0)
             res = {"keys": ((), ()), "trans": 0, "fails": [], "outcomes": [], "samples": [], "extra": {},
@@ -445,7 +487,18 @@ def replay(modname, path):
         blob = json.load(f)
     _worker_init(modname, quiet=False)
     d = _WORK["dir"]
+    plant_decoys(d)
     os.chdir(d)
+    if blob.get("fail", {}).get("after_twin"):
+        tw = twin_of(blob["case"])
+        if tw is not None:
+            try:
+                mod.run_case(tw, d)
+            except BaseException:
+                pass
+            clean_dir(d)
+            plant_decoys(d)
+            os.chdir(d)
     res = mod.run_case(blob["case"], d)
     known = load_known(mod.PROPERTY)
     bad = 0
